@@ -330,7 +330,7 @@ class ForeignFamily(Family):
                 bump(stats, "interleaved_overlapping" if ov else "interleaved_nonoverlapping")
                 sz = part_sizes(rng, len(bs))
                 yield [("note overlap" if ov else "note sequential"), "des.new", f"des.feed {sz} {hexb(bs)}",
-                       "!des.decoded " + (" ".join(GF.show_msg(m) for m in expect) or "~")]
+                       "!des.decoded " + (" ".join(GF.show_msg(m) for m in expect) or "~"), f"spec.seq {hexb(bs)}"]
             return
         for _ in range(n):
             big = rng.chance(1, 25)
@@ -340,6 +340,7 @@ class ForeignFamily(Family):
             if pid in ("C06", "C03"):
                 ops.append("!des.decoded " + (" ".join(GF.show_msg(m) for m in expect) or "~"))
                 ops.append(f"spec.feed {hexb(bs)}")
+                ops.append(f"spec.seq {hexb(bs)}")
             if pid in ("C15", "C03"):
                 ops.append(f"!des.split all {part_sizes(rng, len(bs))} {hexb(bs)}")
                 if len(bs) < 3000:
